@@ -171,8 +171,9 @@ func Run(job Job, scratch string) (res Result) {
 			f := strings.SplitN(r.V, "+", 2)
 			vars.Set("V", ast.Var{Value: f[0]})
 			vars.Set("W", ast.Var{Value: f[1]})
-		} else if r.V != "" {
+		} else {
 			vars.Set("V", ast.Var{Value: r.V})
+			vars.Set("W", ast.Var{Value: ""})
 		}
 		calls = append(calls, &task.Call{Task: r.Task, Vars: vars})
 	}
@@ -286,8 +287,8 @@ func RunCLI(p *Program, exitCode bool) (int, string, error) {
 	if strings.Contains(r.V, "+") {
 		f := strings.SplitN(r.V, "+", 2)
 		args = append(args, "V="+f[0], "W="+f[1])
-	} else if r.V != "" {
-		args = append(args, "V="+r.V)
+	} else {
+		args = append(args, "V="+r.V, "W=")
 	}
 	if p.N > 0 {
 		args = append(args, "--concurrency", fmt.Sprint(p.N))
